@@ -108,6 +108,15 @@ impl<'g> Cx<'g> {
                         };
                     }
                 }
+                // `Ok(p)` / `Err(p)` on a `Result` value
+                if (ts.path.is_ident("Ok") || ts.path.is_ident("Err")) && ts.elems.len() == 1 {
+                    if let Ty::Res(a, b) = scrut {
+                        let ok = ts.path.is_ident("Ok");
+                        let inner: &Ty = if ok { a } else { b };
+                        let (s, binds) = self.pat(&ts.elems[0], inner)?;
+                        return Ok((format!("{} {}", if ok { "Except.ok" } else { "Except.error" }, Self::paren_pat(&s)), binds));
+                    }
+                }
                 if ts.path.is_ident("Some") && ts.elems.len() == 1 {
                     let inner = match scrut {
                         Ty::Opt(t) => (**t).clone(),
